@@ -415,6 +415,9 @@ def b_abs(ex, p, args, kwargs, node):
 def b_minmax(which):
     def f(ex, p, args, kwargs, node):
         from . import seqops
+        if len(args) == 1 and hasattr(args[0], 'minmax'):
+            yield from args[0].minmax(ex, p, which, node)        # abstract sequence with its own (library) contract of min/max
+            return
         if len(args) == 1:
             for q, items in seqops.iterate(ex, p, args[0], node):
                 if isinstance(items, Raised):
